@@ -852,12 +852,24 @@ pub fn run_c06(out: &mut Out, rng: &mut Rng, thorough: bool, only: Option<&str>)
 
 pub fn run_c14(out: &mut Out, rng: &mut Rng, thorough: bool, only: Option<&str>) {
     each_variant(only, |v| {
-        let img = image(v, rng);
-        let h = v.hash(&img).unwrap();
+        // one random value at every destination length; the special values (uniform, runs of seven equal
+        // bytes and a different one, sparse headers ...) at the lengths where something is written
+        let mut values = vec![image(v, rng)];
+        values.extend(special_images(v, rng));
+        for (vi, img) in values.into_iter().enumerate() {
+        let h = match v.hash(&img) {
+            Some(h) => h,
+            None => continue,
+        };
         for (form, n) in [("bytes", v.size()), ("hex", v.len_str() - 2), ("hexp", v.len_str())] {
-            let mut lens: Vec<usize> = (0..=(n + 64)).collect();
+            let mut lens: Vec<usize> = if vi == 0 { (0..=(n + 64)).collect() } else { vec![n, n + 1, n + 7] };
+            if vi > 0 && form == "hex" && !thorough {
+                continue;
+            }
             // far larger destinations (arena-style callers): around 2^8, 2^16 and 2^20
-            lens.extend([255usize, 256, 257, 65_535, 65_536, 65_537, (1 << 20) + 1]);
+            if vi == 0 {
+                lens.extend([255usize, 256, 257, 65_535, 65_536, 65_537, (1 << 20) + 1]);
+            }
             for l in lens {
                 if !thorough && l + 6 < n && l % 4 != 0 {
                     continue;
@@ -898,6 +910,7 @@ pub fn run_c14(out: &mut Out, rng: &mut Rng, thorough: bool, only: Option<&str>)
                         .meas(r.a, &r.p),
                 );
             }
+        }
         }
     });
 }
